@@ -246,18 +246,23 @@ theorem handleSettings_shape (c : Conn) (s : Frame.SettingsVal) :
 
 /-! ## requests evolve, results are never replaced -/
 
-/-- what anything but the caller's own `read` can do to a request: the identity of the request, whether its caller
-has read it and whether the caller has taken it back stay; a result that is waiting (or was taken) is not replaced -/
+/-- what anything but the caller's own `read` and `writeRequest` can do to a request: the identity of the request,
+whether its caller has read it and whether the caller has taken it back stay, and so does the stream it is on; a result
+that is waiting (or was taken) is not replaced -/
 structure Req.Le (r r' : Req) : Prop where
   tag : r'.tag = r.tag
   read : r'.read = r.read
   done : r'.done = r.done
   keep : (r.done = true ∨ r.errBuf.isSome = true) → r'.errBuf = r.errBuf
+  sid : r'.sid = r.sid
+  hasConn : r'.hasConn = r.hasConn
+  streamed : r'.streamed = r.streamed
 
-theorem Req.Le.refl (r : Req) : Req.Le r r := ⟨rfl, rfl, rfl, fun _ => rfl⟩
+theorem Req.Le.refl (r : Req) : Req.Le r r := ⟨rfl, rfl, rfl, fun _ => rfl, rfl, rfl, rfl⟩
 
 theorem Req.Le.trans {a b c : Req} (h1 : Req.Le a b) (h2 : Req.Le b c) : Req.Le a c := by
-  refine ⟨h2.tag.trans h1.tag, h2.read.trans h1.read, h2.done.trans h1.done, ?_⟩
+  refine ⟨h2.tag.trans h1.tag, h2.read.trans h1.read, h2.done.trans h1.done, ?_, h2.sid.trans h1.sid,
+    h2.hasConn.trans h1.hasConn, h2.streamed.trans h1.streamed⟩
   intro h
   have e1 := h1.keep h
   have : b.done = true ∨ b.errBuf.isSome = true := by
@@ -284,7 +289,7 @@ theorem Req.resolve_le (r : Req) (e : Err) : Req.Le r (r.resolve e) := by
   split
   · exact Req.Le.refl r
   · rename_i h
-    refine ⟨rfl, rfl, rfl, ?_⟩
+    refine ⟨rfl, rfl, rfl, ?_, rfl, rfl, rfl⟩
     intro h'
     exfalso; apply h; simpa using h'
 
